@@ -165,7 +165,110 @@ func runC07(c *Ctx) {
 	r.Rule("arp-addr", "sender/target addresses the library itself builds for an ARP frame name both MAC and IP", 10)
 	r.Rule("src-mac", "Ethernet source of every emitted frame is NICInfo.HostAddr4.MAC", 11)
 	r.Rule("checksum-order", "checksums are computed after the last write they cover", 4)
-	r.Rule("hop-limit", "hop limit 255 for link-local destinations", 1)
+	r.Rule("hop-limit", "hop limit 255 for link-local destinations and for neighbour discovery messages", 2)
+	// the SSDP search is an HTTP request over UDP: request line first, every line ended by CR LF, an empty line last.
+	// The payload is a package-level constant; its bytes are computed from the initialiser.
+	r.Rule("ssdp-text", "the SSDP M-SEARCH payload is a well-formed HTTP request", 1)
+	{
+		var content []byte
+		known := false
+		where := ""
+		var constBytes func(v ssa.Value, depth int) ([]byte, bool)
+		constBytes = func(v ssa.Value, depth int) ([]byte, bool) {
+			if depth > 6 {
+				return nil, false
+			}
+			switch t := v.(type) {
+			case *ssa.Convert:
+				if k, ok := t.X.(*ssa.Const); ok && k.Value != nil && k.Value.Kind() == constant.String {
+					return []byte(constant.StringVal(k.Value)), true
+				}
+			case *ssa.Slice:
+				// a slice literal: new [n]byte with constant element stores
+				if al, ok := t.X.(*ssa.Alloc); ok && t.Low == nil && t.High == nil {
+					arr, isArr := al.Type().Underlying().(*types.Pointer).Elem().Underlying().(*types.Array)
+					if !isArr {
+						return nil, false
+					}
+					out := make([]byte, arr.Len())
+					set := 0
+					for _, rf := range *al.Referrers() {
+						ia, isIA := rf.(*ssa.IndexAddr)
+						if !isIA {
+							continue
+						}
+						ik, isK := ia.Index.(*ssa.Const)
+						if !isK {
+							return nil, false
+						}
+						for _, r2 := range *ia.Referrers() {
+							if st, isSt := r2.(*ssa.Store); isSt {
+								vk, isVK := st.Val.(*ssa.Const)
+								if !isVK {
+									return nil, false
+								}
+								out[ik.Int64()] = byte(vk.Int64())
+								set++
+							}
+						}
+					}
+					return out, set == len(out)
+				}
+			case *ssa.Call:
+				if b, ok := t.Call.Value.(*ssa.Builtin); ok && b.Name() == "append" && len(t.Call.Args) == 2 {
+					a, ok1 := constBytes(t.Call.Args[0], depth+1)
+					c2, ok2 := constBytes(t.Call.Args[1], depth+1)
+					if ok1 && ok2 {
+						return append(append([]byte{}, a...), c2...), true
+					}
+				}
+			}
+			return nil, false
+		}
+		if pk := c.P.Pkg("handlers/dns_naming"); pk != nil {
+			if ini := pk.Func("init"); ini != nil {
+				core.EachInstr(ini, func(i ssa.Instruction) {
+					st, ok := i.(*ssa.Store)
+					if !ok {
+						return
+					}
+					if g, isG := st.Addr.(*ssa.Global); !isG || g.Name() != "mSearchString" {
+						return
+					}
+					where = c.P.Pos(core.PosOf(i))
+					content, known = constBytes(st.Val, 0)
+				})
+			}
+		}
+		st, det := core.Undecided, "the initialiser of mSearchString was not found or is not a constant byte string"
+		if known {
+			txt := string(content)
+			var why []string
+			if !strings.HasPrefix(txt, "M-SEARCH * HTTP/1.1\r\n") {
+				why = append(why, fmt.Sprintf("it starts with %q, not with the request line M-SEARCH * HTTP/1.1 CR LF", txt[:min(len(txt), 24)]))
+			}
+			for k := 0; k < len(txt); k++ {
+				if txt[k] == '\n' && (k == 0 || txt[k-1] != '\r') {
+					why = append(why, fmt.Sprintf("the line feed at offset %d is not preceded by a carriage return", k))
+					break
+				}
+			}
+			if !strings.HasSuffix(txt, "\r\n\r\n") {
+				why = append(why, "it does not end with an empty line (CR LF CR LF)")
+			}
+			for _, h := range []string{"\r\nHOST: 239.255.255.250:1900\r\n", "\r\nMAN: \"ssdp:discover\"\r\n", "\r\nST: "} {
+				if !strings.Contains(txt, h) {
+					why = append(why, fmt.Sprintf("the header %q is missing", strings.TrimSpace(h)))
+				}
+			}
+			st, det = core.Proved, ""
+			if len(why) > 0 {
+				st, det = core.Violated, "the SSDP search payload is not an HTTP request a reference parser accepts: "+strings.Join(why, "; ")
+			}
+		}
+		r.Add(core.Obligation{Rule: "ssdp-text", Key: "ssdp-text mSearchString", Func: "dns_naming.init", Pos: where, Status: st,
+			Basis: fmt.Sprintf("%d constant bytes: request line, CR LF line ends, HOST/MAN/ST headers, empty line last", len(content)), Detail: det})
+	}
 	r.Rule("multicast-const", "IPv6 multicast IP constants carry the matching 33:33 MAC; service groups have their RFC values", 10)
 
 	libFns := c.P.LibFunctions()
@@ -555,7 +658,7 @@ func runC07(c *Ctx) {
 					if cv, ok := e.(*ssa.Const); ok && cv.Int64() == 255 {
 						pred := phi.Block().Preds[i]
 						gs := guardsOf(pred.Instrs[len(pred.Instrs)-1])
-						if hasGuard(gs, `^[^!].*IsLinkLocal(Multicast|Unicast)\(`) || linkLocalEdge(pred) {
+						if hasGuard(gs, `^[^!].*IsLinkLocal(Multicast|Unicast)\(`) || linkLocalEdge(pred) || linkLocalLeadsTo(fn, pred) {
 							st, det = core.Proved, ""
 						}
 					}
@@ -569,9 +672,15 @@ func runC07(c *Ctx) {
 						continue
 					}
 					pred := phi.Block().Preds[i]
+					// the conditions that hold whenever this edge is taken: the dominating guards of the predecessor
+					// (joined with the path conditions of its single-entry region) and the condition of the edge itself
+					dom := guardTexts(guardsOf(pred.Instrs[len(pred.Instrs)-1]))
 					conj := pathDNF(pred)
 					if len(conj) == 0 {
 						conj = []string{""}
+					}
+					for k := range conj {
+						conj[k] = dom + " && " + conj[k]
 					}
 					edge := ""
 					if iff, isIf := pred.Instrs[len(pred.Instrs)-1].(*ssa.If); isIf {
@@ -592,6 +701,47 @@ func runC07(c *Ctx) {
 			}
 			r.Add(core.Obligation{Rule: "hop-limit", Key: "hop-limit icmp6SendPacket", Func: core.FuncName(fn), Pos: c.P.Pos(core.PosOf(s.(ssa.Instruction))), Status: st,
 				Basis: "hop limit is 255 on the edge taken for link-local unicast/multicast destinations", Detail: det})
+			// neighbour discovery messages (types 133-137) carry 255 whatever their destination (RFC 4861: receivers discard
+			// any other value; a unicast solicitation to a global address is still neighbour discovery): every path that
+			// keeps a smaller hop limit has looked at the message type and found it outside that range
+			st2, det2 := core.Violated, "the hop limit passed to EncodeIP6 does not depend on the ICMPv6 message type"
+			if phi, ok := args[1].(*ssa.Phi); ok {
+				st2, det2 = core.Proved, ""
+				for i, e := range phi.Edges {
+					cv, isC := e.(*ssa.Const)
+					if !isC || cv.Int64() == 255 {
+						continue
+					}
+					pred := phi.Block().Preds[i]
+					// the conditions that hold whenever this edge is taken: the dominating guards of the predecessor
+					// (joined with the path conditions of its single-entry region) and the condition of the edge itself
+					dom := guardTexts(guardsOf(pred.Instrs[len(pred.Instrs)-1]))
+					conj := pathDNF(pred)
+					if len(conj) == 0 {
+						conj = []string{""}
+					}
+					for k := range conj {
+						conj[k] = dom + " && " + conj[k]
+					}
+					edge := ""
+					if iff, isIf := pred.Instrs[len(pred.Instrs)-1].(*ssa.If); isIf {
+						if pred.Succs[1] == phi.Block() {
+							edge = "!" + norm(iff.Cond)
+						} else {
+							edge = norm(iff.Cond)
+						}
+					}
+					for _, cj := range conj {
+						full := cj + " && " + edge
+						if !regexp.MustCompile(`!\(arg2\[0\][<>]=?1\d\d\)|!\(len\(arg2\)>0\)|\(len\(arg2\)==0\)`).MatchString(full) {
+							st2 = core.Violated
+							det2 = fmt.Sprintf("hop limit %d is kept on a path that has not established that the message is not neighbour discovery (types 133-137): %s - a solicitation unicast to a global address goes out with that hop limit and is discarded by its receiver", cv.Int64(), strings.Trim(full, " &"))
+						}
+					}
+				}
+			}
+			r.Add(core.Obligation{Rule: "hop-limit", Key: "hop-limit icmp6SendPacket neighbour discovery", Func: core.FuncName(fn), Pos: c.P.Pos(core.PosOf(s.(ssa.Instruction))), Status: st2,
+				Basis: "every path keeping a smaller hop limit has tested the message type as outside 133-137", Detail: det2})
 		}
 	}
 
@@ -703,6 +853,28 @@ func linkLocalEdge(b *ssa.BasicBlock) bool {
 		}
 	}
 	return true
+}
+
+// linkLocalLeadsTo: both link-local tests of the destination exist in fn and their true edge goes to b.
+func linkLocalLeadsTo(fn *ssa.Function, b *ssa.BasicBlock) bool {
+	uni, multi := false, false
+	okAll := true
+	core.EachInstr(fn, func(i ssa.Instruction) {
+		iff, ok := i.(*ssa.If)
+		if !ok {
+			return
+		}
+		n := norm(iff.Cond)
+		isU, isM := strings.Contains(n, "IsLinkLocalUnicast(local(dstAddr).IP)"), strings.Contains(n, "IsLinkLocalMulticast(local(dstAddr).IP)")
+		if !isU && !isM {
+			return
+		}
+		if iff.Block().Succs[0] != b {
+			okAll = false
+		}
+		uni, multi = uni || isU, multi || isM
+	})
+	return okAll && uni && multi
 }
 
 // usedAsDestination: the global Addr (whole value, its address, or its MAC) is read outside constructors.
